@@ -14,7 +14,7 @@ def tokAddr (a : Addr) : String :=
   if a = Mbond then "Mbond" else if a = Mdist then "Mdist" else if a = Ment then "Ment"
   else if a = Mfee then "Mfee" else if a = Mgov then "Mgov" else if a = Mnbond then "Mnbond"
   else if a = Mstr then "Mstr" else if a = Mxfer then "Mxfer"
-  else if 2000 ≤ a ∧ a < 2004 then s!"L{a - 2000}" else s!"A{a}"
+  else if 2000 ≤ a ∧ a < 2005 then s!"L{a - 2000}" else s!"A{a}"
 
 def tokAddrTok : AddrTok → String
   | .ok a false => tokAddr a
@@ -72,7 +72,7 @@ def digest (s : State) (nAccts : Nat) : List String :=
   (s.str.streams.mergeSort (fun a b => a.1.1 < b.1.1 ∨ (a.1.1 = b.1.1 ∧ a.1.2 ≤ b.1.2))).map (fun x =>
     let st := x.2
     s!"D str.stream {tokAddr x.1.1} {tokAddr x.1.2} {st.deposit}{st.denom} {st.rate} {st.last} {st.zero} {if st.cancellable then 1 else 0}") ++
-  ((List.range nAccts) ++ [Ment, Mstr, 2000, 2001, 2002, 2003]).map (fun a =>
+  ((List.range nAccts) ++ [Ment, Mstr, 2000, 2001, 2002, 2003, 2004]).map (fun a =>
     s!"D bank.bal {tokAddr a} {pCoins (s.bank.allBalances a)} {pCoins (s.bank.spendable s.nowSec a)}") ++
   [s!"D bank.fees {pCoins (Coins.add (s.bank.allBalances Mfee) (s.bank.allBalances Mdist))}",
    s!"D bank.supply {pCoins ((Coins.safeSub (Bank.sortCoins (s.bank.supply.map (fun x => { denom := x.1, amt := (x.2 : Int) }))) (s.bank.allBalances Mgov)).1)}",
@@ -84,7 +84,7 @@ def pAddr? (t : String) : Option Addr :=
   match t with
   | "Mbond" => some Mbond | "Mdist" => some Mdist | "Ment" => some Ment | "Mfee" => some Mfee
   | "Mgov" => some Mgov | "Mnbond" => some Mnbond | "Mstr" => some Mstr | "Mxfer" => some Mxfer
-  | "L0" => some 2000 | "L1" => some 2001 | "L2" => some 2002 | "L3" => some 2003
+  | "L0" => some 2000 | "L1" => some 2001 | "L2" => some 2002 | "L3" => some 2003 | "L4" => some 2004
   | _ => if t.startsWith "A" then (t.drop 1).toNat? else none
 
 def pAddrTok? (t : String) : Option AddrTok :=
@@ -378,7 +378,8 @@ structure Interp where
   cfg : GenCfg := {}
   node : Option Node := none
   nAccts : Nat := 0
-  govs : List (Nat × List Msg) := []
+  /-- proposals of the open block: running number, whether the vote passes it, its messages -/
+  govs : List (Nat × Bool × List Msg) := []
   halted : Bool := false
   commits : Nat := 0
 
@@ -411,8 +412,19 @@ def genLine (c : GenCfg) (toks : List String) : Option GenCfg :=
     pure { c with bcn := ← pRegParamsToks? [← kv rest "denom", ← kv rest "reg", ← kv rest "rec", ← kv rest "buy", ← kv rest "def", ← kv rest "max"]
                   bcnStart := ← (← kv rest "startid").toNat? }
   | ["str", f] => do pure { c with strFee := ← (← kv [f] "fee").toInt? }
+  | ["lacct", a, coins] => do    -- a long (non-key) address with an account and coins in genesis
+    pure { c with accts := c.accts ++ [{ id := ← pAddr? a, exists_ := true, balance := ← pCoins? coins, vest := none }] }
+  | ["authz", granter, grantee, kind] => do
+    pure { c with grants := c.grants ++ [(← pAddr? granter, ← pAddr? grantee, kind)] }
   | ["addr", tok, hex] => do pure { c with addrBytes := c.addrBytes ++ [(← pAddr? tok, ← pHex? hex)] }
   | _ => none
+
+/-- the `RG` lines of a block: a proposal the vote did not pass is `rejected` and none of its messages ran -/
+def rgLines (s : State) : List (Nat × Bool × List Msg) → List Bool → List String
+  | [], _ => []
+  | (k, false, ms) :: gs, oks => s!"RG {k} {if govSubmitOK s ms then "rejected" else "err"}" :: rgLines s gs oks
+  | (k, true, _) :: gs, ok :: oks => s!"RG {k} {if ok then "ok" else "err"}" :: rgLines s gs oks
+  | (k, true, _) :: gs, [] => s!"RG {k} err" :: rgLines s gs []
 
 /-- process one script line: new interpreter state and the trace lines it emits -/
 def stepToks (wall : Nat) (it : Interp) (line : String) (toks : List String) : Interp × List String :=
@@ -424,7 +436,7 @@ def stepToks (wall : Nat) (it : Interp) (line : String) (toks : List String) : I
     | none => ({ it with halted := true }, [s!"! bad-line {line}"])
   | ["INIT"] =>
     let n := Node.init it.cfg
-    let k := it.cfg.accts.length
+    let k := (it.cfg.accts.filter (fun a => decide (a.id < 1000))).length
     ({ it with node := some n, nAccts := k }, ["I ok"] ++ digest n.committed k)
   | ["BEGIN", sec, ns] =>
     match it.node, sec.toInt?, ns.toInt? with
@@ -477,14 +489,18 @@ def stepToks (wall : Nat) (it : Interp) (line : String) (toks : List String) : I
     | some n => (it, digest n.committed it.nAccts)
     | none => ({ it with halted := true }, [s!"! bad-line {line}"])
   | "GOVEXEC" :: k :: rest =>
+    -- optional `vote=<yes|no|veto|abstain>` : how the (only) validator votes; anything but yes rejects the proposal
+    let (passes, rest) := match rest with
+      | v :: more => if v.startsWith "vote=" then (v == "vote=yes", more) else (true, rest)
+      | [] => (true, rest)
     match k.toNat?, pMsgs? rest with
-    | some k, some ms => ({ it with govs := it.govs ++ [(k, ms)] }, [])
+    | some k, some ms => ({ it with govs := it.govs ++ [(k, passes, ms)] }, [])
     | _, _ => ({ it with halted := true }, [s!"! bad-line {line}"])
   | ["END"] =>
     match it.node with
     | some n =>
-      let (n', oks) := n.endBlock wall (it.govs.map (·.2))
-      let lines := (it.govs.zip oks).map (fun (g, ok) => s!"RG {g.1} {if ok then "ok" else "err"}")
+      let (n', oks) := n.endBlock wall ((it.govs.filter (·.2.1)).map (·.2.2))
+      let lines := rgLines n.working it.govs oks
       ({ it with node := some n', govs := [] }, ["E ok"] ++ lines)
     | none => ({ it with halted := true }, [s!"! bad-line {line}"])
   | ["COMMIT"] =>
